@@ -145,49 +145,45 @@ func ruleT14(c *Ctx) {
 func ruleT15(c *Ctx) {
 	kinds := delimiterDroppingKinds(c)
 	fpk := c.P.ByRel["internal/formatter"]
-	info := fpk.TypesInfo
+	_ = fpk.TypesInfo
 	// comment: the literal written right before posting.Comment must end with the comment character and nothing else
 	if kinds["TokenComment"] {
-		found := false
-		okLit := false
-		lit := ""
-		for _, f := range fpk.Syntax {
-			for _, d := range f.Decls {
-				fd, ok := d.(*ast.FuncDecl)
-				if !ok || fd.Body == nil {
-					continue
+		// on SSA: wherever the posting's comment value is written (string concatenation, consecutive writes to a
+		// builder, a variadic "put" helper, a helper method that receives the text), the constant written
+		// immediately before it ends with the ';' the lexer dropped - nothing (a blank) is inserted in between
+		var lits []string
+		fssa := c.P.SSAPkg("internal/formatter")
+		for _, f := range c.P.ModuleFuncs() {
+			top := f
+			for top.Parent() != nil {
+				top = top.Parent()
+			}
+			if top.Pkg != fssa {
+				continue
+			}
+			for _, b := range f.Blocks {
+				for _, ins := range b.Instrs {
+					ld, ok := ins.(*ssa.UnOp)
+					if !ok || ld.Op != token.MUL {
+						continue
+					}
+					fa, ok := ld.X.(*ssa.FieldAddr)
+					if !ok || !typeHasSuffix(fa.X.Type(), "ast.Posting") || fieldVarOfAddr(fa).Name() != "Comment" {
+						continue
+					}
+					lits = append(lits, constsWrittenBefore(ld, 0, map[ssa.Value]bool{})...)
 				}
-				ast.Inspect(fd.Body, func(x ast.Node) bool {
-					blk, ok := x.(*ast.BlockStmt)
-					if !ok {
-						return true
-					}
-					for i := 1; i < len(blk.List); i++ {
-						cur, ok1 := blk.List[i].(*ast.ExprStmt)
-						prev, ok2 := blk.List[i-1].(*ast.ExprStmt)
-						if !ok1 || !ok2 {
-							continue
-						}
-						cc, ok1 := cur.X.(*ast.CallExpr)
-						pc, ok2 := prev.X.(*ast.CallExpr)
-						if !ok1 || !ok2 || len(cc.Args) != 1 || len(pc.Args) != 1 {
-							continue
-						}
-						if se, ok := ast.Unparen(cc.Args[0]).(*ast.SelectorExpr); ok && se.Sel.Name == "Comment" {
-							found = true
-							if s, ok := stringConst(info, pc.Args[0]); ok {
-								lit = s
-								okLit = strings.HasSuffix(s, ";")
-							}
-						}
-					}
-					return true
-				})
 			}
 		}
-		c.check(found && okLit, "T15", "formatter", "comment re-emitted behind exactly the delimiter the lexer dropped", token.NoPos,
-			fmt.Sprintf("the text written before posting.Comment is %q: the comment value (everything after ';') follows verbatim", lit),
-			fmt.Sprintf("the lexer's comment value is everything after ';' (leading blank included) but the formatter writes %q before it: every formatting run inserts another blank, so formatting is not idempotent", lit))
+		okLit := len(lits) > 0
+		for _, l := range lits {
+			if !strings.HasSuffix(l, ";") {
+				okLit = false
+			}
+		}
+		c.check(okLit, "T15", "formatter", "comment re-emitted behind exactly the delimiter the lexer dropped", token.NoPos,
+			fmt.Sprintf("the text written before posting.Comment is %q: the comment value (everything after ';') follows verbatim", lits),
+			fmt.Sprintf("the lexer's comment value is everything after ';' (leading blank included) but the formatter writes %q before it: every formatting run inserts another blank, so formatting is not idempotent", lits))
 	}
 	if kinds["TokenCommodity"] {
 		// a branch on the Quoted flag exists in the formatter and the parser derives the flag from the lexeme
@@ -346,4 +342,102 @@ func repeatCountSafe(c *Ctx, ci *concInfo, v ssa.Value, f *ssa.Function, depth i
 		}
 	}
 	return false, "count " + v.String() + " is neither a constant, a max(…, c>=0), nor a clamped setting"
+}
+
+// constsWrittenBefore: the string constants that are written immediately in front of the string value v, wherever
+// v is emitted: the left operand of a concatenation, the preceding element of a variadic argument list, the
+// preceding write to the same builder; a module function that receives v as a parameter is entered.
+func constsWrittenBefore(v ssa.Value, depth int, seen map[ssa.Value]bool) []string {
+	if depth > 4 || seen[v] || v.Referrers() == nil {
+		return nil
+	}
+	seen[v] = true
+	var out []string
+	lastConst := func(x ssa.Value) (string, bool) {
+		for i := 0; i < 6; i++ {
+			if s, ok := constString(x); ok {
+				return s, true
+			}
+			bo, ok := x.(*ssa.BinOp)
+			if !ok || bo.Op != token.ADD {
+				return "", false
+			}
+			x = bo.Y
+		}
+		return "", false
+	}
+	for _, r := range *v.Referrers() {
+		switch x := r.(type) {
+		case *ssa.BinOp:
+			if x.Op == token.ADD && x.Y == v {
+				if s, ok := lastConst(x.X); ok {
+					out = append(out, s)
+				}
+			} else if x.Op == token.ADD && x.X == v {
+				// v + rest: what precedes v is what precedes the sum
+				out = append(out, constsWrittenBefore(x, depth+1, seen)...)
+			}
+		case *ssa.Store:
+			// element k of a variadic argument list: the element before it
+			ia, ok := x.Addr.(*ssa.IndexAddr)
+			if !ok || x.Val != v {
+				continue
+			}
+			k, ok := ia.Index.(*ssa.Const)
+			if !ok || k.Value == nil || k.Int64() == 0 {
+				continue
+			}
+			for _, r2 := range *ia.X.Referrers() {
+				if ia2, ok := r2.(*ssa.IndexAddr); ok {
+					if k2, ok := ia2.Index.(*ssa.Const); ok && k2.Value != nil && k2.Int64() == k.Int64()-1 {
+						for _, r3 := range *ia2.Referrers() {
+							if st, ok := r3.(*ssa.Store); ok {
+								if s, ok := lastConst(st.Val); ok {
+									out = append(out, s)
+								}
+							}
+						}
+					}
+				}
+			}
+		case *ssa.Call:
+			ai := -1
+			for i, a := range x.Call.Args {
+				if a == v {
+					ai = i
+				}
+			}
+			if ai < 0 {
+				continue
+			}
+			if cal := x.Call.StaticCallee(); cal != nil && cal.Blocks != nil && inModule(cal) && ai < len(cal.Params) {
+				out = append(out, constsWrittenBefore(cal.Params[ai], depth+1, seen)...)
+				continue
+			}
+			// an external writer (strings.Builder.WriteString, ...): the previous write to the same receiver
+			if len(x.Call.Args) >= 2 {
+				recv := x.Call.Args[0]
+				blk := x.Block()
+				idx := -1
+				for i, y := range blk.Instrs {
+					if y == ssa.Instruction(x) {
+						idx = i
+					}
+				}
+				for i := idx - 1; i >= 0; i-- {
+					pc, ok := blk.Instrs[i].(*ssa.Call)
+					if !ok || len(pc.Call.Args) < 2 || !(pc.Call.Args[0] == recv || sameAddr(pc.Call.Args[0], recv, 0)) {
+						continue
+					}
+					if s, ok := lastConst(pc.Call.Args[len(pc.Call.Args)-1]); ok {
+						out = append(out, s)
+					}
+					break
+				}
+			}
+		case *ssa.Phi:
+			out = append(out, constsWrittenBefore(x, depth+1, seen)...)
+		}
+	}
+	return out
 }
